@@ -65,6 +65,16 @@ def wellformed(OUT, table):
         if d['mode'] == 'active':
             chk('memory', d['memory'], 'data %d' % k)
             cexpr(d['offset'], 'data %d offset' % k)
+    # ref.func in a body needs a declaration: an export, an element segment item or a global initialiser naming it
+    declared = set(e['index'] for e in OUT['exports'] if e['kind'].lower() == 'func')
+    for e in OUT['elements']:
+        if e['items'][0] == 'funcs':
+            declared |= set(e['items'][1])
+        else:
+            declared |= set(c[1] for c in e['items'][2] if c[0] == 'ref_func')
+    for g in OUT['globals']:
+        if g['init'][0] == 'ref_func':
+            declared.add(g['init'][1])
     uses_data = False
     for j, b in enumerate(OUT['code']):
         fty = OUT['funcs'][j]['type'] if j < len(OUT['funcs']) else None
@@ -83,6 +93,8 @@ def wellformed(OUT, table):
             one = list(getattr(ins, 'f', ()))
             if name in ('Call', 'ReturnCall', 'RefFunc'):
                 chk('func', conc(one[0]), 'body %d %s' % (j, name))
+                if name == 'RefFunc' and conc(one[0]) not in declared:
+                    bad.append('body %d ref.func %d: undeclared function reference (not exported, in no element segment, in no global initialiser)' % (j, conc(one[0])))
             elif name in ('CallIndirect', 'ReturnCallIndirect'):
                 chk('type', conc(fl.get('type_index', fl.get('ty', one[0]))), 'body %d %s' % (j, name))
                 chk('table', conc(fl.get('table_index', fl.get('table', one[-1]))), 'body %d %s' % (j, name))
